@@ -75,5 +75,9 @@ RECURSIVE Digits(_)
 Digits(n) == IF n < 10 THEN <<ZERO + n>> ELSE Append(Digits(n \div 10), ZERO + (n % 10))
 PadLeft(s, width, c) == IF Len(s) >= width THEN s ELSE Repeat(c, width - Len(s)) \o s
 DecPad(n, width) == PadLeft(Digits(n), width, ZERO)
+\* the decimal text of a natural number, and back
+DecOf(n) == Digits(n)
+IsDec(s) == Len(s) > 0 /\ \A i \in 1..Len(s) : s[i] >= ZERO /\ s[i] <= ZERO + 9
+DecVal(s) == FoldLeft(LAMBDA acc, c : acc * 10 + (c - ZERO), 0, s)
 
 =============================================================================
